@@ -120,6 +120,12 @@ func randRawVersion(r *rng, prev map[string]uint64, mode string) rawVersion {
 		}
 	case "newclock":
 		times[fmt.Sprintf("clock%d", r.intn(5))] = uint64(r.intn(9))
+	case "swap": // one clock disappears while another one appears
+		for k := range times {
+			delete(times, k)
+			break
+		}
+		times[fmt.Sprintf("swapped%d", r.intn(5))] = uint64(r.intn(9))
 	}
 	nl := 20
 	switch r.intn(12) {
@@ -179,7 +185,7 @@ func c09Validate(c *runCtx) {
 		for k := 0; k < n; k++ {
 			mode := "ok"
 			if k > 0 {
-				mode = pickOne(r, []string{"ok", "ok", "ok", "decrease", "drop", "newclock"})
+				mode = pickOne(r, []string{"ok", "ok", "ok", "decrease", "drop", "newclock", "swap"})
 			}
 			v := randRawVersion(r, prev, mode)
 			prev = v.Times
